@@ -57,6 +57,8 @@ def run_case(cs):
     os.makedirs(root)
     if not exhaustive and rng.random() < 0.05:
         return _chain_case(cs, root)
+    if not exhaustive and rng.random() < 0.012:
+        return _bulk_case(cs, root)
     if exhaustive:
         seq, pat = EXH[idx]
         files = ["f.bin"]
@@ -272,6 +274,44 @@ def run_case(cs):
         pat = "".join("".join(sorted(set(t.values()))) + "." for t in trans)
         cs.cls("-".join(shape), pat[:24], "sf" if mode_sf else "folder", "nested" if nested else "flat")
     cs.sample({"files": files, "nested": nested, "steps": steps})
+
+
+def _bulk_case(cs, root):
+    """some hundred unaltered files over several generations: the manifests are much larger than the pieces an XML parser
+    is fed with, and every digest of every earlier generation has to come back complete"""
+    rng = cs.rng
+    n = rng.randint(150, 260)
+    for i in range(n):
+        sub = "reel_%d" % (i % 4)
+        os.makedirs(os.path.join(root, sub), exist_ok=True)
+        with open(os.path.join(root, sub, "clip_%04d.mov" % i), "wb") as fh:
+            fh.write(b"clip" + i.to_bytes(3, "big") + rng.randbytes(rng.randint(0, 5)))
+    steps = []
+    fmts = rng.sample(["xxh64", "md5", "sha1", "xxh128", "c4"], rng.randint(1, 2))
+    for g in range(rng.randint(3, 5)):
+        opts = ["--comment", "x" * rng.randint(0, 400)] if rng.random() < 0.8 else []
+        r, new, before, after = hist.create(root, fmts if g == 0 or rng.random() < 0.6 else rng.sample(["xxh64", "md5", "sha1"], 1), opts)
+        steps.append(f"g{g + 1} => {r.exit}")
+        cs.evaluated()
+        cs.count("gens")
+        cs.count("bulk_generations")
+        if r.internal:
+            cs.violation(classify.internal_key(r), classify.internal_sig(r, "create"), {"steps": steps, **r.brief()})
+            return
+        if r.exit != 0:
+            cs.violation("unaltered-create-nonzero", {"kind": "create-exit", "exit": r.exit, "want": 0, "sf": False, "bulk": True}, {"steps": steps, "files": n, "out": r.text[-400:]})
+            return
+        for h, names in new.items():
+            for nm in names:
+                if nm.endswith(".mhl"):
+                    m = xmlread.read_manifest_bytes(after[h][nm])
+                    for rec in m["hashes"]:
+                        for f, dg, a, _ in rec.get("entries", []):
+                            cs.count("entries_judged")
+                            if a == "failed":
+                                cs.violation("failed-on-unaltered", {"kind": "failed-on-unaltered", "bulk": True}, {"steps": steps, "path": rec["path"], "format": f})
+                                return
+    cs.cls("bulk", "files%d" % (n // 50), "+".join(sorted(fmts)))
 
 
 def _chain_case(cs, root):
